@@ -18,6 +18,9 @@ CLAIMED = {
  "C08": ("interprocedural context-sensitive taint analysis over SSA (field- and window-sensitive access paths) + Go-assembly lint",
          "Decides the source-level statement of C08 for the analysed build configurations: from ~110 constant-time entry points (table derived from the property statement) no secret-derived value is used as a branch condition, loop bound, memory/table index, slice bound, allocation size, division operand, shift count or aggregate comparison, is passed to a function outside a closed allow-list of modelled constant-time callees, or reaches a *Vartime routine; every assembly routine has no data-dependent jump, no indexed memory operand and no variable-latency instruction. All paths, all inputs, every reachable function, 3 (quick) / 6 (thorough) configurations. Positive controls for every sink kind fire on each run.",
          "DESIGN.md §3 E-CT, E-ASM, §4 C08", "source, declassifier and external-model tables are in props/c08.go and ect/external.go; micro-architectural timing and compiler-introduced branches are out of scope", ["ect", "easm"]),
+ "C18": ("may-write summaries over SSA and the VTA call graph, dominance-based lock discipline, zero-instance concurrency rules with positive controls",
+         "Decides the structural clauses that make concurrent use race-free: (GLOBAL-store) no function other than package initialisation stores to memory rooted at a package-level variable, directly or through a callee that writes its argument (assembly writes from the assembly scanner); (SHARED-readonly) no function writes through a parameter of a shared precomputed type (base-point tables, expanded points/keys, lookup tables) except the type's two initialisers; (NO-concurrency) no goroutine, channel, sync/atomic or unsafe cast outside one allow-listed function; (LOCK-access/atomic/double) for every struct containing a sync.Mutex (found by type) each field access is dominated by Lock on the same object or happens in a helper all of whose callers hold it, every externally callable method locks first and unlocks by defer (operations are atomic, so linearisability reduces to sequential correctness), no double lock. Sequential correctness of the LRU policy is not decided.",
+         "DESIGN.md §3 E-MOD, §4 C18", "external callees outside a read-only allow-list are assumed to write all pointer arguments; callers mutating exported variables and user Cache implementations are outside the claim", ["emod", "easm"]),
 }
 
 PENDING_REASON = "check under construction (DESIGN.md section 7 build order); not claimed yet"
